@@ -335,15 +335,16 @@ class Chunk:
 
         run_ids = [c.run_id for c in chunks]
 
-        if len(set(run_ids)) != 1 and not allow_superrun:
+        if (len(set(run_ids)) != 1 or run_ids[0] is None) and not allow_superrun:
             raise ValueError(
                 f"Cannot concatenate {data_type} chunks with different run ids: {run_ids}"
             )
 
-        if len(set(run_ids)) == 1:
+        if len(set(run_ids)) == 1 and run_ids[0] is not None:
             run_id = run_ids[0]
             superrun = None
         else:
+            # Chunks of different runs, or chunks that each already span several runs (run_id None)
             run_id = None
             superrun = _merge_superrun_in_chunk(chunks)
         try:
